@@ -551,7 +551,7 @@ class _SetOperation(Selectable, Term):  # type:ignore[misc]
                 else self.base_query.wrap_constant(field)
             )
 
-            self._orderbys.append((field, kwargs.get("order")))
+            self._orderbys = self._orderbys + [(field, kwargs.get("order"))]
 
     @builder
     def limit(self, limit: int) -> "Self":  # type:ignore[return]
@@ -563,23 +563,23 @@ class _SetOperation(Selectable, Term):  # type:ignore[misc]
 
     @builder
     def union(self, other: Selectable) -> "Self":  # type:ignore[return]
-        self._set_operation.append((SetOperation.union, other))  # type:ignore[arg-type]
+        self._set_operation = self._set_operation + [(SetOperation.union, other)]  # type:ignore[list-item]
 
     @builder
     def union_all(self, other: Selectable) -> "Self":  # type:ignore[return]
-        self._set_operation.append((SetOperation.union_all, other))  # type:ignore[arg-type]
+        self._set_operation = self._set_operation + [(SetOperation.union_all, other)]  # type:ignore[list-item]
 
     @builder
     def intersect(self, other: Selectable) -> "Self":  # type:ignore[return]
-        self._set_operation.append((SetOperation.intersect, other))  # type:ignore[arg-type]
+        self._set_operation = self._set_operation + [(SetOperation.intersect, other)]  # type:ignore[list-item]
 
     @builder
     def except_of(self, other: Selectable) -> "Self":  # type:ignore[return]
-        self._set_operation.append((SetOperation.except_of, other))  # type:ignore[arg-type]
+        self._set_operation = self._set_operation + [(SetOperation.except_of, other)]  # type:ignore[list-item]
 
     @builder
     def minus(self, other: Selectable) -> "Self":  # type:ignore[return]
-        self._set_operation.append((SetOperation.minus, other))  # type:ignore[arg-type]
+        self._set_operation = self._set_operation + [(SetOperation.minus, other)]  # type:ignore[list-item]
 
     def __add__(self, other: Selectable) -> "Self":  # type:ignore[override]
         return self.union(other)
